@@ -21,24 +21,29 @@ theorem pow10_eq (n : ℕ) : (pow10 n : α) = 10 ^ n := by
   | zero => simp [pow10]
   | succ n ih => simp [pow10, ih, ten_eq, pow_succ, mul_comm]
 
-theorem ofNatLit_eq (n : ℕ) : (ofNatLit n : α) = (n : α) := by
-  induction n using Nat.strong_induction_on with
-  | _ n ih =>
-    cases n with
-    | zero => simp [ofNatLit]
-    | succ n =>
-      rw [ofNatLit]
-      have hlt : (n + 1) / 2 < n + 1 := Nat.div_lt_self (Nat.succ_pos n) (by norm_num)
-      rw [ih _ hlt, two_eq]
+theorem ofNatAux_eq : ∀ (f n : ℕ), n < 2 ^ f → (ofNatAux f n : α) = (n : α)
+  | 0, n, h => by
+      have : n = 0 := by simpa using h
+      subst this; simp [ofNatAux]
+  | f + 1, n, h => by
+      rw [ofNatAux]
       split
-      · rename_i h
-        have : n + 1 = 2 * ((n + 1) / 2) := by omega
-        conv_rhs => rw [this]
-        push_cast; ring
-      · rename_i h
-        have : n + 1 = 2 * ((n + 1) / 2) + 1 := by omega
-        conv_rhs => rw [this]
-        push_cast; ring
+      · rename_i h0; subst h0; simp
+      · have hlt : n / 2 < 2 ^ f := by
+          rw [Nat.div_lt_iff_lt_mul (by norm_num)]; rw [pow_succ] at h; exact h
+        rw [ofNatAux_eq f (n / 2) hlt, two_eq]
+        split
+        · rename_i hm
+          have : n = 2 * (n / 2) := by omega
+          conv_rhs => rw [this]
+          push_cast; ring
+        · rename_i hm
+          have : n = 2 * (n / 2) + 1 := by omega
+          conv_rhs => rw [this]
+          push_cast; ring
+
+theorem ofNatLit_eq (n : ℕ) : (ofNatLit n : α) = (n : α) :=
+  ofNatAux_eq _ n Nat.lt_log2_self
 
 theorem pow10_pos (n : ℕ) : (0 : α) < pow10 n := by rw [pow10_eq]; positivity
 
